@@ -36,12 +36,13 @@ fn class_token(class: u8, k: u8) -> Token {
     }
 }
 
-fn impl_precedence(token: Token) -> i32 {
-    let binary = ManuallyDrop::new(BinaryOperators::new());
-    let unary = ManuallyDrop::new(UnaryOperators::new());
-    let mut parser = ManuallyDrop::new(Parser::from_plain_tokens(&binary, &unary, vec![token, Token::End]));
-    let _ = parser.next();
-    match parser.get_token_precedence() { Ok(p) => p, Err(_) => -100 }
+fn impl_precedence(binary: &BinaryOperators, unary: &UnaryOperators, token: Token) -> i32 {
+    let mut parser = ManuallyDrop::new(Parser::from_plain_tokens(binary, unary, vec![token, Token::End]));
+    // (results are never dropped: the drop glue of ParserError -> ParserErrorType -> ValueType recurses to the unwinding bound)
+    let moved = ManuallyDrop::new(parser.next().map(|_| ()));
+    if moved.is_err() { return -100; }
+    let r = ManuallyDrop::new(parser.get_token_precedence());
+    match &*r { Ok(p) => *p, Err(_) => -100 }
 }
 
 /// every operator of the tighter class binds strictly tighter than every operator of the looser class
@@ -54,8 +55,10 @@ macro_rules! prec_harness {
             let k1: u8 = kani::any();
             let k2: u8 = kani::any();
             kani::assume(k1 < 30 && k2 < 30);
-            let p_tight = impl_precedence(class_token($tight, k1));
-            let p_loose = impl_precedence(class_token($loose, k2));
+            let binary = ManuallyDrop::new(BinaryOperators::new());
+            let unary = ManuallyDrop::new(UnaryOperators::new());
+            let p_tight = impl_precedence(&binary, &unary, class_token($tight, k1));
+            let p_loose = impl_precedence(&binary, &unary, class_token($loose, k2));
             assert!(p_tight >= 0 && p_loose >= 0, "C13 every binary operator token has a precedence");
             assert!(p_tight > p_loose, "C13 operators of a tighter class bind strictly tighter");
             kani::cover!(true, "prec: end reachable");
@@ -76,8 +79,11 @@ prec_harness!(c13_prec_cmp_or, CL_CMP, CL_OR);
 #[kani::unwind(16)]
 #[kani::stub(alloc::fmt::format, crate::verif_kani::common::stub_format)]
 fn c13_prec_same_level() {
-    assert!(impl_precedence(Token::Operator(Operator::Single('*'))) == impl_precedence(Token::Operator(Operator::Single('/'))), "C13 * and / share a level");
-    assert!(impl_precedence(Token::Operator(Operator::Single('+'))) == impl_precedence(Token::Operator(Operator::Single('-'))), "C13 + and - share a level");
+    let binary = ManuallyDrop::new(BinaryOperators::new());
+    let unary = ManuallyDrop::new(UnaryOperators::new());
+    let p = |c: char| impl_precedence(&binary, &unary, Token::Operator(Operator::Single(c)));
+    assert!(p('*') == p('/'), "C13 * and / share a level");
+    assert!(p('+') == p('-'), "C13 + and - share a level");
     kani::cover!(true, "same level: end reachable");
 }
 
@@ -103,8 +109,10 @@ fn level(c: char) -> u8 { if c == '*' || c == '/' { 5 } else { 4 } }
 
 /// a o1 b o2 c with o1, o2 symbolic among + - * /: the tree is the standard one
 #[kani::proof]
-#[kani::unwind(16)]
+#[kani::unwind(10)]
 #[kani::stub(alloc::fmt::format, crate::verif_kani::common::stub_format)]
+#[kani::stub(str::to_lowercase, crate::verif_kani::common::stub_to_lowercase_ascii_lower)]
+#[kani::stub(core::str::slice_error_fail, crate::verif_kani::common::stub_slice_error_fail)]
 fn c13_climb_two_arith() {
     let o1 = arith(kani::any());
     let o2 = arith(kani::any());
@@ -139,8 +147,10 @@ fn c13_climb_two_arith() {
 
 /// a o1 b o2 c o3 d with a low-high-low pattern (o1, o3 in + -, o2 in * /): ((a o1 (b o2 c)) o3 d)
 #[kani::proof]
-#[kani::unwind(16)]
+#[kani::unwind(10)]
 #[kani::stub(alloc::fmt::format, crate::verif_kani::common::stub_format)]
+#[kani::stub(str::to_lowercase, crate::verif_kani::common::stub_to_lowercase_ascii_lower)]
+#[kani::stub(core::str::slice_error_fail, crate::verif_kani::common::stub_slice_error_fail)]
 fn c13_climb_low_high_low() {
     let o1 = if kani::any() { '+' } else { '-' };
     let o2 = if kani::any() { '*' } else { '/' };
